@@ -135,6 +135,13 @@ class PyEval(MiniEval):
                     if out[0] == "raise":
                         raise Raised(f"{name}: {out[1]}", str(out[1]))
                     return out[1] if out[0] == "return" else None
+            # class-level constant of one of the token's classes (`_setting = True` in a subclass), MRO order; only
+            # literal values: anything else (field(...), descriptors) stays opaque
+            for c in value.attrs["__classes__"]:
+                for st in c.node.body:
+                    tgt = st.target if isinstance(st, ast.AnnAssign) else (st.targets[0] if isinstance(st, ast.Assign) and len(st.targets) == 1 else None)
+                    if isinstance(tgt, ast.Name) and tgt.id == name and isinstance(getattr(st, "value", None), ast.Constant):
+                        return st.value.value
         if isinstance(value, str) and name in ("lower", "upper"):
             return ("bound", getattr(value, name))
         # class constant:  NumericType.INT_WIDTH
@@ -367,6 +374,11 @@ class PyEval(MiniEval):
         return super().ev(e, env)
 
     def assign(self, target: ast.expr, value: Any, env: dict) -> None:
+        if isinstance(target, ast.Name) and target.id in env.get("__global_names__", ()):
+            # `global X` was declared in this function: the write goes to the module namespace, where every other
+            # interpreted function of the module (and later calls) read it
+            self.__dict__.setdefault("_modconst", {})[target.id] = value
+            return
         if isinstance(target, ast.Attribute):
             try:
                 base = self.ev(target.value, env)
@@ -422,6 +434,11 @@ class PyEval(MiniEval):
     # ---- statements beyond MiniEval: match, raise with class, try
     def run(self, body: list[ast.stmt], env: dict) -> tuple[str, Any]:
         for i, st in enumerate(body):
+            if isinstance(st, ast.Global):
+                env["__global_names__"] = set(env.get("__global_names__", ())) | set(st.names)
+                for gname in st.names:
+                    env.pop(gname, None)  # reads go to the module namespace from here on
+                continue
             if isinstance(st, ast.Match):
                 subj = self.ev(st.subject, env)
                 for case in st.cases:
